@@ -207,6 +207,9 @@ def main():
     hists = [h['hist'] for h in mc.vp]
     if not hists:
         raise MachineryError('MC_FileCli emitted no behaviour')
+    if a.replay_case:
+        hists = [a.replay_case['case']['history']]
+        a.seed = a.replay_case['case'].get('content_seed', a.seed)
     rnd = random.Random(a.seed)
     if len(hists) > 12000:
         hists = rnd.sample(hists, 12000)
@@ -266,7 +269,7 @@ def main():
     for log, h, v in zip(logs, hists, verdicts):
         if v.reached != v.length:
             ev = log[v.reached]
-            run.violation({'history': h, 'event': ev, 'input': str(h)[:300]},
+            run.violation({'history': h, 'event': ev, 'input': str(h)[:300], 'content_seed': a.seed},
                           f'the specification does not allow recorded step {v.reached + 1}: {describe(ev)[:300]}', classes=(), symptom='blocked')
             continue
         seen = set()
@@ -275,7 +278,7 @@ def main():
                 continue
             seen.add(clause)
             ev = log[pos - 1]
-            run.violation({'history': h, 'event_index': pos, 'clause': clause, 'event': ev, 'input': str(h)[:300]},
+            run.violation({'history': h, 'event_index': pos, 'clause': clause, 'event': ev, 'input': str(h)[:300], 'content_seed': a.seed},
                           f'clause {clause} fails at step {pos} of {[x.get("act", x.get("init")) for x in h]}: {describe(ev)[:400]}',
                           classes=(), symptom=clause)
         if any(x.get('act', '').endswith('_dir') or x.get('out') for x in h[1:]):
